@@ -274,9 +274,59 @@ IMMEDIATE_WRITE = {
 }
 
 
+def stdout_list_frame(E):
+    """frame behind the rely "a result's stdout list is complete once done is true" (decided on the source): the list is
+    only ever APPENDED to, by the collectors' write methods (the relay thread), and the parent reads it in one place, the
+    drain loop guarded by `.done` -- nothing else in runner.py reads, empties or re-binds it while the child is running."""
+    import ast
+    tree = E.module('runner')[0]
+    uses = []
+    for n in ast.walk(tree):
+        if isinstance(n, ast.Attribute) and n.attr == 'stdout' and not (isinstance(n.value, ast.Name) and n.value.id in ('sys', 'subprocess', 'child')):
+            uses.append(n)
+    parents = {}
+    for p in ast.walk(tree):
+        for c in ast.iter_child_nodes(p):
+            parents[id(c)] = p
+
+    def enclosing(n, kinds):
+        while id(n) in parents:
+            n = parents[id(n)]
+            if isinstance(n, kinds):
+                return n
+        return None
+    bad = []
+    for u in uses:
+        par = parents[id(u)]
+        fn = enclosing(u, (ast.FunctionDef,))
+        fname = fn.name if fn is not None else '<module>'
+        text = ast.unparse(par)[:60]
+        if isinstance(par, ast.Assign) and fname == '__init__' and ast.unparse(par) == 'self.stdout = []':
+            continue                                                    # created empty
+        if isinstance(par, ast.Attribute) and par.attr == 'append' and fname == 'write':
+            continue                                                    # appended to by a collector's write
+        if fname == 'resume_tests' and isinstance(par, ast.Call) and ast.unparse(par.func) == 'stdout.writelines':
+            g = u
+            guarded = False
+            while g is not None:                                        # some enclosing while / if tests `.done`
+                g = enclosing(g, (ast.While, ast.If))
+                if g is not None and '.done' in ast.unparse(g.test):
+                    guarded = True
+                    break
+            if guarded:
+                continue                                                # read by the parent under `.done`
+        if fname == 'spawn_layer_in_subprocess':
+            continue                                                    # child.stdout: the pipe, not the list
+        bad.append('%s: %s' % (fname, text))
+    E.syntactic_obligation("a collector's stdout list is only appended to by write() and read by the parent under `.done` "
+                           "(nothing flushes, empties or re-binds it while the child is still writing)",
+                           not bad, detail='; '.join(bad), props=('C06',))
+
+
 def register(E):
     E.load_sidecar(os.path.join(HERE, 'common.py'))
     E.load_sidecar(os.path.join(HERE, 'vocab_layers.py'))
+    stdout_list_frame(E)
     E.specfuncs['takes_bytes'] = lambda eng, st, x: VBool(bin_ok(x.z))
     E.records.setdefault('runner.ImmediateSubprocessResult', {})
     E.add_contract('runner._get_output_buffer', GET_BUFFER)
